@@ -19,7 +19,11 @@
 //!   - a second `Memvid::open` / `Memvid::create` of the path fails (slow scenarios, ~10 s each, run
 //!     in parallel threads: before a commit, after a commit, with a commit DURING the opener's
 //!     retry loop) and a refused create leaves the file's length alone,
-//!   - two actors never hold writable handles for one path at the same time (two-writer schedules).
+//!   - two actors never hold writable handles for one path at the same time (two-writer schedules),
+//!   - lock mode switching: the handle's belief (`FileLock::mode()`) and `read_only` are compared with
+//!     the model after every op; a handle that just completed a mutation holds an exclusive flock —
+//!     in particular after an upgrade that timed out (~10 s, a reader in another process holds the
+//!     shared lock) and was retried once the reader left (slow scenario `upgrade_timeout_retry`).
 //! known findings (`--known`): an oracle failure is reported as the recorded finding
 //! `lock-left-on-unlinked-inode-after-commit` only when the model of the current protocol predicts
 //! the very same observation AND the live writer's lock is stale (it has committed since it was
@@ -130,6 +134,14 @@ fn actor_main() {
                     }
                 }
             },
+            "downgrade" => match mem.as_mut() {
+                None => "nohandle".into(),
+                Some(m) => match std::panic::catch_unwind(AssertUnwindSafe(|| m.downgrade_to_shared())) {
+                    Ok(Ok(())) => "ok".into(),
+                    Ok(Err(e)) => format!("err {}", clean(e)),
+                    Err(_) => "panic".into(),
+                },
+            },
             "drop" => {
                 let r = std::panic::catch_unwind(AssertUnwindSafe(|| drop(mem.take())));
                 if r.is_ok() { "ok".into() } else { "panic".into() }
@@ -142,7 +154,13 @@ fn actor_main() {
                     let pino = std::fs::metadata(m.path()).map(|x| x.ino()).unwrap_or(0);
                     let own = own_inodes(m.path().parent().unwrap_or(Path::new("/")));
                     let (held, n) = proc_locks(lino, &own);
-                    format!("pino={pino} fino={fino} lino={lino} held={held} nlocks={n} ro={} frames={}",
+                    // the handle's BELIEF about its lock (FileLock::mode) next to what it holds
+                    let mode = match format!("{:?}", m.lock_handle().mode()).as_str() {
+                        "Exclusive" => "ex",
+                        "Shared" => "sh",
+                        _ => "none",
+                    };
+                    format!("pino={pino} fino={fino} lino={lino} held={held} nlocks={n} ro={} mode={mode} frames={}",
                         m.is_read_only() as u8, m.frame_count())
                 }
             },
@@ -255,7 +273,8 @@ fn canon_real_obs(obs: &str) -> String {
         return "none".into();
     }
     let (p, f, l) = (field(obs, "pino"), field(obs, "fino"), field(obs, "lino"));
-    format!("lockOnPath={} fileOnPath={} held={} nlocks={}",
+    format!("mode={} ro={} lockOnPath={} fileOnPath={} held={} nlocks={}",
+        field(obs, "mode").unwrap_or("?"), field(obs, "ro").unwrap_or("?"),
         (p == l) as u8, (p == f) as u8, field(obs, "held").unwrap_or("?"), field(obs, "nlocks").unwrap_or("?"))
 }
 
@@ -263,7 +282,8 @@ fn canon_model_obs(obs: &str) -> String {
     if obs == "none" {
         return "none".into();
     }
-    format!("lockOnPath={} fileOnPath={} held={} nlocks={}",
+    format!("mode={} ro={} lockOnPath={} fileOnPath={} held={} nlocks={}",
+        field(obs, "mode").unwrap_or("?"), field(obs, "ro").unwrap_or("?"),
         field(obs, "lockOnPath").unwrap_or("?"), field(obs, "fileOnPath").unwrap_or("?"),
         field(obs, "held").unwrap_or("?"), field(obs, "nlocks").unwrap_or("?"))
 }
@@ -466,6 +486,7 @@ fn run_hist(ops: &[String], m: &mut Model, w: &mut World) -> Outcome {
     let (mut prev_real, mut prev_model) = (None, String::from("-"));
     let mut renames_alive = 0;
     let mut dirty = false;
+    let mut reader_alive = false;
     for (i, op) in ops.iter().enumerate() {
         let label = format!("op {i} {op}");
         let before = stat_ino(&w.path);
@@ -476,14 +497,32 @@ fn run_hist(ops: &[String], m: &mut Model, w: &mut World) -> Outcome {
                 model_op(m, &mut out, &format!("{op} 0 {MP}"), ok_of(&r), &label);
                 dirty = false;
             }
+            "put" | "commit" | "vacuum"
+                if reader_alive && field(&w.a.ask("obs"), "ro") == Some("1") =>
+            {
+                // the upgrade would wait ~10 s for the reader (covered by the slow scenario)
+                out.trace.push(format!("impl  A {op} skipped (handle parked in shared mode while a reader is open)"));
+                continue;
+            }
             "put" => {
                 let r = w.a.ask(&format!("put {i}"));
                 out.trace.push(format!("impl  A put -> {r}"));
                 if r == "ok" {
                     dirty = true;
                 }
-                if m.drv.is_some() && r == "ok" {
-                    m.ask("put 0");
+                model_op(m, &mut out, "put 0", ok_of(&r), &label);
+            }
+            "downgrade" => {
+                let r = w.a.ask("downgrade");
+                let o = w.a.ask("obs");
+                out.trace.push(format!("impl  A downgrade_to_shared -> {r}   ({o})"));
+                // downgrade_to_shared returns Ok without doing anything while the handle has pending
+                // work (dirty / index flush pending): an input of the lock protocol, like sync_work
+                if field(&o, "ro") == Some("1") {
+                    m.ask("downgrade 0");
+                    out.branches.push("downgraded-to-shared");
+                } else {
+                    out.trace.push("  model: downgrade skipped (the handle had pending work)".into());
                 }
             }
             "commit" | "vacuum" | "drop" => {
@@ -498,18 +537,25 @@ fn run_hist(ops: &[String], m: &mut Model, w: &mut World) -> Outcome {
                     out.trace.push(format!("  model {op} 0 -> {a}"));
                 }
             }
+            "ro_open" if { let o = w.a.ask("obs"); o != "none" && field(&o, "ro") == Some("0") } => {
+                // a reader's open would wait ~10 s for the writer's exclusive lock
+                out.trace.push("impl  R open_read_only skipped (a writable handle is alive)".into());
+                continue;
+            }
             "ro_open" => {
                 let r = w.r.ask(&format!("openro {ps}"));
                 out.trace.push(format!("impl  R open_read_only -> {r}"));
                 model_op(m, &mut out, &format!("openro 3 {MP}"), ok_of(&r), &label);
                 if r == "ok" {
                     out.branches.push("reader-open");
+                    reader_alive = true;
                 }
             }
             "ro_drop" => {
                 let r = w.r.ask("drop");
                 out.trace.push(format!("impl  R drop -> {r}"));
                 m.ask("kill 3");
+                reader_alive = false;
             }
             "doctor" => {
                 let oa = w.a.ask("obs");
@@ -672,9 +718,87 @@ struct SlowReal {
     a_after: String,
     size_before: u64,
     size_after: u64,
+    /// upgrade_timeout_retry: (model request, implementation's canonical answer) step by step
+    steps: Vec<(String, String)>,
+    /// … and the oracle's verdicts, from the implementation's observations alone: (signature, what)
+    fails: Vec<(String, String)>,
+}
+
+/// A parks itself in shared mode, a reader R opens, A's mutation times out in the upgrade (~10 s),
+/// R leaves, A retries the mutation; then a probe and a second writable open — all BEFORE any
+/// commit of the handle under test.
+fn slow_upgrade_real() -> SlowReal {
+    let mut w = World::new();
+    let ps = w.pstr();
+    let mut tr = Vec::new();
+    let mut steps: Vec<(String, String)> = Vec::new();
+    let mut fails: Vec<(String, String)> = Vec::new();
+    let t0 = std::time::Instant::now();
+    // a committed, closed file; then the handle under test
+    for c in [format!("create {ps}"), "put 0".into(), "commit".into(), "drop".into()] {
+        tr.push(format!("impl  A {c} -> {}", w.a.ask(&c)));
+    }
+    let r = w.a.ask(&format!("open {ps}"));
+    tr.push(format!("impl  A open -> {r}"));
+    steps.push((format!("open 0 {MP}"), ok_of(&r).into()));
+    let r = w.a.ask("downgrade");
+    let o = w.a.ask("obs");
+    tr.push(format!("impl  A downgrade_to_shared -> {r}   ({o})"));
+    steps.push(("downgrade 0".into(), "ok".into()));
+    steps.push(("obs 0".into(), canon_real_obs(&o)));
+    let r = w.r.ask(&format!("openro {ps}"));
+    tr.push(format!("impl  R open_read_only -> {r}"));
+    steps.push((format!("openro 3 {MP}"), ok_of(&r).into()));
+    let t1 = std::time::Instant::now();
+    let r = w.a.ask("put 1");
+    let o = w.a.ask("obs");
+    tr.push(format!("impl  A put (upgrade while R holds the shared lock) -> {r}   ({:.1} s; {o})", t1.elapsed().as_secs_f64()));
+    steps.push(("put 0".into(), ok_of(&r).into()));
+    steps.push(("obs 0".into(), canon_real_obs(&o)));
+    if r == "ok" {
+        fails.push(("upgrade-granted-while-reader-holds-shared-lock".into(),
+            format!("a mutation on a handle parked in shared mode succeeded while another process holds the shared lock ({o})")));
+    }
+    tr.push(format!("impl  R drop -> {}", w.r.ask("drop")));
+    steps.push(("kill 3".into(), "ok".into()));
+    let r = w.a.ask("put 2");
+    let o = w.a.ask("obs");
+    tr.push(format!("impl  A put (retry) -> {r}   ({o})"));
+    steps.push(("put 0".into(), ok_of(&r).into()));
+    steps.push(("obs 0".into(), canon_real_obs(&o)));
+    let probe = w.p.ask(&format!("probe {ps}"));
+    let pw = probe.split(' ').next().unwrap_or("?").to_string();
+    steps.push((format!("probe {MP}"), pw.clone()));
+    let b = w.b.ask(&format!("tryopen {ps}"));
+    tr.push(format!("impl  P probe -> {probe}; B Memvid::try_open -> {b}"));
+    steps.push((format!("tryopen 1 {MP}"), ok_of(&b).into()));
+    // oracle: a handle that just completed a mutation holds an exclusive flock on the inode the
+    // path names, and nobody else gets a writable handle while it is alive (no commit involved)
+    if r == "ok" {
+        let (p, l) = (field(&o, "pino"), field(&o, "lino"));
+        if field(&o, "ro") != Some("0") || field(&o, "held") != Some("ex") || p != l {
+            fails.push(("mutation-without-exclusive-lock".into(),
+                format!("a handle that just completed a put (after a timed-out upgrade was retried) does not hold an exclusive flock on the file: {o}")));
+        }
+        if pw == "granted" {
+            fails.push(("second-writer-admitted-while-handle-alive".into(),
+                format!("writable handle alive (no commit since it was opened), yet flock(LOCK_EX|LOCK_NB) on the path was GRANTED to another process ({probe}; {o})")));
+        }
+        if b == "ok" {
+            fails.push(("second-writer-admitted-while-handle-alive".into(),
+                format!("writable handle alive (no commit since it was opened), yet a second Memvid::try_open of the path SUCCEEDED ({o})")));
+        }
+    }
+    w.b.ask("drop");
+    w.a.ask("drop");
+    SlowReal { name: "upgrade_timeout_retry".into(), trace: tr, b_result: ok_of(&b).into(),
+        secs: t0.elapsed().as_secs_f64(), a_after: o, size_before: 0, size_after: 0, steps, fails }
 }
 
 fn slow_real(name: &str) -> SlowReal {
+    if name == "upgrade_timeout_retry" {
+        return slow_upgrade_real();
+    }
     let mut w = World::new();
     let ps = w.pstr();
     let mut tr = Vec::new();
@@ -705,13 +829,37 @@ fn slow_real(name: &str) -> SlowReal {
     say(format!("impl  A put+commit afterwards -> {} {}", w.a.ask("put 2"), w.a.ask("commit")));
     w.b.ask("drop");
     w.a.ask("drop");
-    SlowReal { name: name.into(), trace: tr, b_result: ok_of(&r).into(), secs, a_after, size_before, size_after }
+    SlowReal { name: name.into(), trace: tr, b_result: ok_of(&r).into(), secs, a_after, size_before, size_after,
+        steps: Vec::new(), fails: Vec::new() }
 }
 
 fn slow_check(sr: SlowReal, m: &mut Model) -> Outcome {
     let mut out = Outcome::default();
     out.trace = sr.trace.clone();
     out.nontrivial = true;
+    if sr.name == "upgrade_timeout_retry" {
+        // no recorded finding applies here: nothing was committed by the handle under test
+        out.violations = sr.fails.clone();
+        if sr.fails.is_empty() {
+            out.branches.push("slow-upgrade-timeout-then-retry-locks");
+        }
+        if m.drv.is_some() {
+            m.ask("reset");
+            m.ask("proto current");
+            for c in [format!("create 0 {MP}"), "put 0".into(), "commit 0".into(), "drop 0".into()] {
+                m.ask(&c);
+            }
+            for (req, real) in &sr.steps {
+                let ans = m.ask(req).unwrap();
+                let ans = if req.starts_with("obs") { canon_model_obs(&ans) } else { ans };
+                out.trace.push(format!("  model {req} -> {ans}"));
+                if &ans != real {
+                    out.disagreements.push((format!("scenario upgrade_timeout_retry: {req}"), ans, real.clone()));
+                }
+            }
+        }
+        return out;
+    }
     // oracle: A was alive and writable all along
     let mut admitted: Option<String> = None;
     if sr.b_result == "ok" {
@@ -810,18 +958,25 @@ fn slow_check(sr: SlowReal, m: &mut Model) -> Outcome {
 fn gen_hist(rng: &mut Rng, len: usize) -> Vec<String> {
     let mut ops: Vec<String> = vec!["create".into()];
     let (mut alive, mut ro) = (true, false);
+    let mut parked = false; // the generator's guess: A downgraded itself to shared mode
     while ops.len() < len {
-        let op = if alive {
-            *rng.pick(&["put", "put", "commit", "commit", "commit", "vacuum", "drop", "doctor", "put"])
+        let op = if alive && parked && ro {
+            *rng.pick(&["ro_drop", "ro_drop", "drop"])
+        } else if alive && parked {
+            *rng.pick(&["put", "commit", "ro_open", "downgrade", "drop", "put"])
+        } else if alive {
+            *rng.pick(&["put", "put", "commit", "commit", "commit", "vacuum", "drop", "doctor", "put", "downgrade"])
         } else if ro {
             *rng.pick(&["ro_drop", "tryopen", "ro_drop"])
         } else {
             *rng.pick(&["open", "tryopen", "create", "ro_open", "doctor", "open"])
         };
         match op {
-            "drop" => alive = false,
+            "drop" => { alive = false; parked = false }
             "open" | "create" => alive = true,
             "tryopen" => alive = !ro,
+            "downgrade" => parked = true,
+            "put" | "commit" | "vacuum" => parked = false,
             "ro_open" => ro = true,
             "ro_drop" => ro = false,
             _ => {}
@@ -932,6 +1087,7 @@ fn main() {
         "commit-renamed-under-live-handle", "probe-refused-while-writer-alive", "tryopen-refused-while-writer-alive",
         "probe-granted-when-free", "doctor-lock-contention", "second-writer-refused", "reader-open",
         "slow-open-refused-before-commit", "slow-waiting-opener-refused", "slow-create-refused",
+        "slow-upgrade-timeout-then-retry-locks", "downgraded-to-shared",
     ]);
 
     if args.mode == "replay" {
@@ -959,7 +1115,7 @@ fn main() {
     }
 
     // slow scenarios first, in parallel threads (each ~10 s: the refused open's retry loop)
-    let slow_names = ["open_after_commit", "open_before_commit", "open_waiting_commit", "create_refused"];
+    let slow_names = ["open_after_commit", "open_before_commit", "open_waiting_commit", "create_refused", "upgrade_timeout_retry"];
     let slow_threads: Vec<_> = slow_names.iter().map(|n| {
         let n = n.to_string();
         std::thread::spawn(move || slow_real(&n))
@@ -977,6 +1133,7 @@ fn main() {
             json!({"kind": "hist", "ops": ["create", "put", "commit", "put", "commit", "doctor", "vacuum", "put", "drop", "open", "put", "commit", "commit"]}),
             json!({"kind": "hist", "ops": ["create", "doctor", "put", "doctor", "commit", "doctor", "drop", "doctor", "tryopen", "put", "commit", "drop"]}),
             json!({"kind": "hist", "ops": ["create", "put", "drop", "ro_open", "tryopen", "ro_drop", "tryopen", "put", "commit", "drop", "create", "put", "commit"]}),
+            json!({"kind": "hist", "ops": ["create", "put", "commit", "drop", "open", "downgrade", "ro_open", "put", "ro_drop", "put", "downgrade", "put", "commit", "downgrade", "drop"]}),
             json!({"kind": "two", "ops": ["0:create", "1:tryopen", "0:put", "0:commit", "1:tryopen", "0:put", "0:commit", "1:tryopen", "0:drop", "1:tryopen", "1:put", "0:tryopen", "1:commit", "0:tryopen", "1:drop", "0:tryopen"]}),
             json!({"kind": "two", "ops": ["0:create", "0:put", "0:vacuum", "1:tryopen", "1:create", "0:put", "0:drop", "1:tryopen", "1:put", "1:commit", "0:tryopen"]}),
         ];
